@@ -3,6 +3,8 @@
 package compose
 
 import (
+	"context"
+	"errors"
 	"reflect"
 
 	"github.com/cloudwego/eino/internal/serialization"
@@ -20,3 +22,48 @@ func VerifC12RegisterType(key string, t reflect.Type) error {
 }
 
 func VerifC12Registered(t reflect.Type) (string, bool) { return serialization.VerifRegistered(t) }
+
+// VerifC12CheckpointTypes are the types compose registers for checkpoints (dag.go init):
+// the harness builds values of them by reflection (exported fields only).
+func VerifC12CheckpointTypes() map[string]reflect.Type {
+	return map[string]reflect.Type{
+		"checkpoint": reflect.TypeOf(checkpoint{}),
+		"dag":        reflect.TypeOf(dagChannel{}),
+		"pregel":     reflect.TypeOf(pregelChannel{}),
+		"channel":    reflect.TypeOf((*channel)(nil)).Elem(),
+		"depstate":   reflect.TypeOf(dependencyState(0)),
+	}
+}
+
+type verifC12Store struct{ m map[string][]byte }
+
+func (s *verifC12Store) Get(_ context.Context, id string) ([]byte, bool, error) {
+	b, ok := s.m[id]
+	return b, ok, nil
+}
+
+func (s *verifC12Store) Set(_ context.Context, id string, b []byte) error {
+	s.m[id] = b
+	return nil
+}
+
+// VerifC12CheckpointSetGet writes a *checkpoint through checkPointer.set into an in-memory
+// store and reads it back through checkPointer.get, as a run does at an interrupt and at
+// the resume. cp must be a *checkpoint (built from VerifC12CheckpointTypes).
+func VerifC12CheckpointSetGet(cp any) (out any, bytes int, setErr error, getErr error) {
+	st := &verifC12Store{m: map[string][]byte{}}
+	c := newCheckPointer(nil, nil, st)
+	ctx := context.Background()
+	if setErr = c.set(ctx, "id", cp.(*checkpoint)); setErr != nil {
+		return nil, 0, setErr, nil
+	}
+	bytes = len(st.m["id"])
+	got, existed, err := c.get(ctx, "id")
+	if err != nil {
+		return nil, bytes, nil, err
+	}
+	if !existed {
+		return nil, bytes, nil, errors.New("checkpoint not found after set")
+	}
+	return got, bytes, nil, nil
+}
